@@ -131,6 +131,13 @@ int read_task_txt_file(struct uftrace_session_link *sess, char *dirname, char *s
 
 	pr_dbg("reading %s file\n", fname);
 	while (getline(&line, &sz, fp) >= 0) {
+		/*
+		 * Every entry is written with its newline: a last line without
+		 * one was cut short and does not describe a whole entry.
+		 */
+		if (strchr(line, '\n') == NULL)
+			break;
+
 		if (!strncmp(line, "TASK", 4)) {
 			num = sscanf(line + 5, "timestamp=%lu.%lu tid=%d pid=%d", &sec, &nsec,
 				     &tmsg.tid, &tmsg.pid);
